@@ -314,7 +314,7 @@ def _histories(shard, seed, tier, col, aes, R, np):
             if any(a in muts and b_ in muts and a == b_ for a, b_ in zip(seq, seq[1:])): continue
             B = blocks[256].copy() if shape != 'NbNk' else blocks[256:259].copy()
             K = keys[0].copy() if shape == '1b1k' else keys[0:3].copy()
-            step = 0
+            step = 0; held = []
             for pos, ev in enumerate(seq):
                 if ev == 'Kall':
                     step += 1; K[...] = keys[(step * 3) % len(keys)] if K.ndim == 1 else keys[[(step * 3 + j) % len(keys) for j in range(K.shape[0])]]
@@ -330,6 +330,7 @@ def _histories(shard, seed, tier, col, aes, R, np):
                     col.evaluations += 1; col.states += 1; col.transitions += 1
                     try:
                         got = _call(aes, mode, B, K, r, st)
+                        held.append((pos, got, np.array(got)))
                     except Exception as e:
                         col.violation('C05/history/raised', 'AES-%d %s, call %d of %s: %s: %s' % (nk * 8, shape, pos, list(seq), type(e).__name__, e), case); continue
                     tr = ref(B, K, mode)
@@ -340,6 +341,9 @@ def _histories(shard, seed, tier, col, aes, R, np):
                         col.violation('C05/history/%s' % mode, 'AES-%d %s: call %d (%s) of the sequence %s on the same block/key array objects (rewritten in place between calls) does not return the FIPS-197 '
                                       'state for the current array contents: key=%s block=%s got=%s expected=%s' % (nk * 8, shape, pos, ev, list(seq), np.atleast_2d(K)[-1].tolist(), np.atleast_2d(B)[-1].tolist(),
                                                                                                         np.atleast_2d(got)[-1].tolist(), np.atleast_2d(exp)[-1].tolist()), case)
+            for pos_, arr, snap in held:
+                if not np.array_equal(np.asarray(arr), snap):
+                    col.violation('C05/history/earlier-result-rewritten', 'the array returned by call %d of the sequence %s changed during later calls' % (pos_, list(seq)), {'kind': 'history', 'sequence': list(seq), 'position': pos_}); break
             col.outcomes.add(seq)
     col.sample({'check': 'call histories on reused arrays', 'depth': depth, 'menu': menu}, limit=1)
 
